@@ -52,7 +52,15 @@ func runC18(c *Ctx) {
 				}
 			}
 		}
-		r.Check("R18.2", FuncName(cl), "is length.Lines of the cell's text", cl.Pos(), ok, "")
+		// ... handed on as it is: no element of the split is rewritten on the way out
+		eachInstr(cl, func(in ssa.Instruction) {
+			if st, isSt := in.(*ssa.Store); isSt {
+				if _, isIA := st.Addr.(*ssa.IndexAddr); isIA {
+					ok = false
+				}
+			}
+		})
+		r.Check("R18.2", FuncName(cl), "is length.Lines of the cell's text", cl.Pos(), ok, "the lines handed to the renderers are not (or not only) the split of the text the cell was measured from")
 	}
 	update := c.Method(cell, true, "Update")
 	width, str, height := c.Field(cell, "width"), c.Field(cell, "str"), c.Field(cell, "height")
